@@ -30,6 +30,8 @@ pub enum L {
     Restart,
     /// OwningAddr::ping
     PingOwn,
+    /// a command message whose handler asks for the actor's own restart (Context::restart)
+    CtxRestart,
 }
 
 pub const WAITING: [L; 5] = [L::SendAddr, L::SendSnd, L::CallCal, L::SendWSnd, L::CallWCal];
@@ -53,6 +55,7 @@ pub fn to_op(l: L, id: u32) -> Op {
         L::CallCalAbandon => Op::CallAbandon(H::Cal(0), id),
         L::Restart => Op::Restart(H::Addr(0)),
         L::PingOwn => Op::Ping(H::Own(0)),
+        L::CtxRestart => Op::Cmd(H::Addr(0), id, crate::world::Action::Restart),
     }
 }
 
@@ -163,6 +166,26 @@ pub fn oracle(s: &ProgScene<X>, t: &Trace) -> Vec<Violation> {
                         _ => {}
                     }
                 }
+            }
+        }
+    }
+    // (3a) a restart the actor asks for itself takes its place in the mailbox like a letter posted
+    // at that instant: whatever had been accepted before the handler asked is handled before the
+    // restart happens
+    for (ri, e) in t.log.iter().enumerate() {
+        if !matches!(e.ev, crate::world::Ev::Ctx { a: 0, op: crate::world::CtxOp::Restart, ok: true }) {
+            continue;
+        }
+        let next_start = an.enters.iter().find(|x| x.a == 0 && x.cb == Cb::Started && x.idx > ri).map(|x| x.idx);
+        let Some(ns) = next_start else { continue };
+        for m1 in subs.iter().filter(|m| m.ok && m.end.is_some_and(|end| end < ri)) {
+            crate::check::oblige("self-restart-in-mailbox-order");
+            if m1.enter.is_none_or(|h| h > ns) && s.extra.abandoned != Some(m1.id) {
+                out.push(Violation {
+                    clause: "fifo-order",
+                    key: format!("C01/self-restart-overtook/{}/mailbox={mb}", m1.letter),
+                    detail: format!("message {} had been accepted before the handler asked for a restart, but the restart happened first", m1.id),
+                });
             }
         }
     }
@@ -436,6 +459,8 @@ fn plain_cases(tier: Tier) -> Vec<Case> {
                 for ticking in [false, true] {
                     let mk = |progs: &[Vec<L>], bound: Option<u32>| if ticking { make_case_ticking(progs, mb, 0, bound) } else { make_case(progs, mb, 0, bound) };
                     v.push(mk(&[vec![x, L::Restart, y, L::CallAddr]], None));
+                    v.push(mk(&[vec![x, L::CtxRestart, y, L::CallAddr]], None));
+                    v.push(mk(&[vec![L::CtxRestart, x], vec![y]], if ticking { Some(4) } else { None }));
                     v.push(mk(&[vec![x, L::Restart], vec![y]], if ticking { Some(4) } else { None }));
                     if tier == Tier::Thorough {
                         v.push(mk(&[vec![x, L::Restart, y], vec![L::SendAddr, L::Restart, L::CallCal]], Some(5)));
